@@ -1643,6 +1643,27 @@ func (g *bundleGen) plantMangleTwins() {
 			}
 		}
 	}
+	if ref == nil && len(g.docs) > 1 && r.P(70) {
+		// no colliding import at hand: make one (a $ref-free definition of an auxiliary document named like a root definition)
+		ad := g.docs[1+r.Intn(len(g.docs)-1)]
+		for _, k := range rd.defNames {
+			free := isPlainIdent(k)
+			for _, d := range g.docs[1:] {
+				for _, n := range d.defNames {
+					if strings.EqualFold(k, n) {
+						free = false
+					}
+				}
+			}
+			if free {
+				ad.defNames = append(ad.defNames, k)
+				ad.refFree[k] = true
+				ad.defs[k] = r.Pick2(obj{"type": "array", "items": g.primitive()}, obj{"type": "object", "properties": obj{"imported": g.primitive()}})
+				ref = obj{"$ref": refTo(rd, ad, "definitions", k)}
+				break
+			}
+		}
+	}
 	if ref == nil {
 		if rs, ok := g.refSchema(rd); ok && r.P(70) {
 			ref = rs
